@@ -31,7 +31,7 @@ OPTIONAL_DRIVERS = ["acquire-driver-hdcam", "acquire-driver-zarr", "acquire-driv
 KIND_CAMERA, KIND_STORAGE = 1, 2
 VIOLATION_RULES = {"SelectSpurious", "SelectMissed", "SelectWrongDevice", "SelectNotEnumeratedKind", "UnknownKindAccepted",
                    "BadStatus", "GetFailed", "GetWrongIdentifier", "GetOutOfRangeAccepted", "OpenFailed", "OpenWrongKind",
-                   "OpenWrongName", "CountMismatch", "Crash", "Exception"}
+                   "OpenWrongName", "CountMismatch", "Crash", "Exception", "MalformedAccepted"}
 HARNESS_RULES = {"HarnessBadEvent", "HarnessBadAst", "HarnessAstMismatch", "HarnessBadCase", "UnknownEvent"}
 SPECIALS = set(b"^$\\.*+?()[]{}|")
 CLS_SPECIALS = set(b"\\][^-")
@@ -485,6 +485,13 @@ def make_cases(config, devs, tlc_cases, classes, alphabet, tier, sd, sample=1):
     for p in FIXED_MALFORMED:
         for k in kinds_present:
             cs.add("S", k, p, family="malformed")
+    # the same device manager is asked again and again: a malformed pattern right after a successful selection, repeated
+    for p in FIXED_MALFORMED:
+        k = rng.choice(kinds_present)
+        good = rng.choice([b".*", b"", rng.choice(names) if names else b".*"])
+        cs.add("S", k, good, family="malformed_retry")
+        for _ in range(3):
+            cs.add("S", k, p, family="malformed_retry")
     narb = (100000 if thorough else 10000) if full else 600
     pats = [bytes(c["pat"]) for c in tl if c["pat"]]
     for p in arbitrary(rng, narb, names, alphabet, pats):
@@ -502,7 +509,12 @@ def make_cases(config, devs, tlc_cases, classes, alphabet, tier, sd, sample=1):
 def run_harness(exe, lines, workdir, tag, watchdog_ms, nproc):
     """Splits the cases round-robin over nproc harness processes. Returns list of (trace, cases file, summary)."""
     nproc = max(1, min(nproc, (len(lines) + 199) // 200))
-    parts = [lines[i::nproc] for i in range(nproc)]
+    # contiguous blocks: every harness process works through its cases in the generated order (sequences of calls on one
+    # device manager - e.g. a malformed pattern repeated after a successful selection - stay together)
+    per = -(-len(lines) // nproc)
+    parts = [lines[i * per:(i + 1) * per] for i in range(nproc)]
+    parts = [p_ for p_ in parts if p_]
+    nproc = len(parts)
 
     def one(i):
         cf_ = os.path.join(workdir, "%s_%02d.cases" % (tag, i))
@@ -583,7 +595,8 @@ def judge(chk, prop, config, runs, workdir, cfg, case_lines, meta, classes, conf
                 what = json.dumps(e)
             sig = "rule=%s site=%s family=%s" % (rule, e.get("e"), fam)
             txt = "%s refused [%s, driver staging '%s']: %s" % (rule, fam, config, what)
-            replay = {"kind": "select_cases", "config": config, "rule": rule, "cases": [cl] if cl else [],
+            # (the calls that preceded it on the same device manager are replayed with it: selection may depend on history)
+            replay = {"kind": "select_cases", "config": config, "rule": rule, "cases": case_lines[max(0, cid - 8):cid + 1] if cl else [],
                       "classes": [[1 if n else 0, [list(i) for i in items]] for n, items in classes]}
             # a refusal is re-run once before it is believed (the harness is deterministic)
             if cl and not confirm(replay, rule, workdir, confirm_exe):
